@@ -425,12 +425,12 @@ func sigKey(f *ssa.Function) string {
 	if f.Pkg != nil {
 		pk = f.Pkg.Pkg.Path()
 	}
-	recv := ""
-	if r := f.Signature.Recv(); r != nil {
-		recv = r.Type().String()
-	}
-	// parameter and result TYPES only: renaming a parameter is not a change of signature
+	// parameter and result TYPES only (renaming a parameter is not a change of signature), the receiver counted as the
+	// first parameter (turning a method into a function of its receiver, or back, is not one either)
 	var ps, rs []string
+	if r := f.Signature.Recv(); r != nil {
+		ps = append(ps, r.Type().String())
+	}
 	for i := 0; i < f.Signature.Params().Len(); i++ {
 		ps = append(ps, f.Signature.Params().At(i).Type().String())
 	}
@@ -441,7 +441,7 @@ func sigKey(f *ssa.Function) string {
 	if f.Signature.Variadic() {
 		v = "..."
 	}
-	return pk + "|" + recv + "|(" + strings.Join(ps, ",") + v + ")(" + strings.Join(rs, ",") + ")"
+	return pk + "|(" + strings.Join(ps, ",") + v + ")(" + strings.Join(rs, ",") + ")"
 }
 
 // attribNames: the reference functions whose code f is part of. A function known on the reference tree is itself; a new
